@@ -530,6 +530,17 @@ pub fn gen_config(rng: &mut Rng) -> Case {
 // W-select (C16)
 
 pub fn gen_select(rng: &mut Rng) -> Case {
+    // stay inside the fragment the model is defined on (DESIGN.md §5.1): regenerate worlds the
+    // model itself flags as ambiguous
+    loop {
+        let c = gen_select_once(rng);
+        if model::select(&c.world, &c.invs[0].opts).ambiguous.is_none() {
+            return c;
+        }
+    }
+}
+
+fn gen_select_once(rng: &mut Rng) -> Case {
     let mut w = base_world();
     let names: &[&str] =
         &["a.lua", "b.lua", "c.lua", "t.spec.lua", "u.spec.lua", "m.luau", "notes.txt", "README", ".hidden.lua", "data.json"];
